@@ -46,7 +46,9 @@ func c02Attrs(r *Rng) [][2]string {
 	var as [][2]string
 	used := map[string]bool{}
 	for i, k := 0, r.Intn(3); i < k; i++ {
-		n := Pick(r, []string{"class", "id", "title", "data-x", "lang"})
+		// plain names, and names with a colon, a period or an underscore inside (namespaces, htmx / alpine style
+		// attributes): none of them is a directive or a binding
+		n := Pick(r, []string{"class", "id", "title", "data-x", "lang", "class", "id", "title", "xml:lang", "xmlns:og", "hx-on:click", "aria-label", "data-a.b_c", "x-on:keyup.enter"})
 		if used[n] {
 			continue
 		}
